@@ -15,18 +15,18 @@ CHECKS = {
  "C01": dict(
     level="exploration", design="2/C01",
     technique="runtime monitor: differential round-trip oracle (generator mirror tree vs parsed result via public API) over seeded + hand-enumerated value-model messages; Miri/ASan layers in thorough",
-    text="Seeded exploration of the public value model: every generated message is encoded by the library and parsed back by the blocking parser (from to_bytes and from into_read) and, every 4th case, by the async parser; the result is compared structurally with the generator's own mirror tree and the payload byte-for-byte. A deterministic prefix enumerates each of the 22 kinds, every ordered pair of kinds as a 2-set, multi-valued members, sets of collections, nested collections, repeated/empty groups and every boundary length. Held = no difference on the executions listed in the evidence; nothing is claimed about messages not generated.",
+    text="Seeded exploration of the public value model: every generated message is encoded by the library and parsed back by the blocking parser (from to_bytes and from into_read) and, every 4th case, by the async parser; every other message that additions alone can produce is additionally built through IppAttributes::add only (shuffled, some attributes first added with a decoy value and replaced later); the result is compared structurally with the generator's own mirror tree and the payload byte-for-byte. A deterministic prefix enumerates each of the 22 kinds, every ordered pair of kinds as a 2-set, multi-valued members, sets of collections, nested collections, repeated/empty groups and every boundary length. Held = no difference on the executions listed in the evidence; nothing is claimed about messages not generated.",
     note="Trusted: the harness's own mirror conversion (public API only) and generator. Domain as in the property's quantifier (utc_dir one octet; Other.tag among tags without a kind of their own)."),
  "C03": dict(
     level="exploration", design="2/C03",
     technique="runtime monitor: independent RFC 8010 reference decoder/encoder (no code shared with ipp) judging the library's bytes over many fresh map instances",
-    text="The bytes of to_bytes() for each generated message (T fresh instances per message, so the randomly keyed maps take different iteration orders) are decoded by an independent strict RFC 8010 decoder (exact lengths, registered body widths, separators with empty name and own tag, collection bracketing, unique names, exactly one end tag, operation group first), the decoded content is compared with the mirror of what was encoded, and a reference encoder given the observed attribute order must reproduce the bytes exactly. The evidence counts distinct attribute orders actually observed; a run in which the orders did not vary is inconclusive.",
+    text="The bytes of to_bytes() for each generated message (T fresh instances per message, so the randomly keyed maps take different iteration orders; every other instance is built through IppAttributes::add alone, with replaced decoys, when additions can produce the message) are decoded by an independent strict RFC 8010 decoder (exact lengths, registered body widths, separators with empty name and own tag, collection bracketing, unique names, exactly one end tag, operation group first), the decoded content is compared with the mirror of what was encoded, and a reference encoder given the observed attribute order must reproduce the bytes exactly. The evidence counts distinct attribute orders actually observed; a run in which the orders did not vary is inconclusive.",
     note="Trusted: the reference codec (ippref), written from RFC 8010 and anchored at start-up to hand-transcribed RFC example messages."),
 
  "C02": dict(
     level="exploration", design="2/C02",
     technique="runtime monitoring with crash attribution: catch_unwind + child processes whose signal handler names the (case, phase) that aborted; logical-step hang oracles (reads past EOF, polls without wake-up); Miri/ASan layers",
-    text="The quantifier's input families are executed literally: every <=2-byte tail and a 1M-sample (thorough: all 2^24) of 3-byte tails after a valid header, the full tag x length x fill x truncation grid (also straight into IppValue::parse), all with-language inner-length pairs, every token sequence up to length 4 (thorough 5) over the 16-token alphabet, seeded grammar-aware mutations, every tag with every 1-byte body and selected 2-byte bodies, every tag with periodic self-describing bodies (a short word such as 00 00 00 7f repeated to 12 B..64 KiB, run on a 2 MiB stack), and 14 structural bomb families up to 1 MiB with each phase (parse, display, debug, encode, traverse, clone+eq, drop) in its own process. Both parsers run on every input; any panic, abort, stack overflow, read loop past EOF or unproductive poll loop is a violation carrying the input. The recorded stack overflows of post-parse recursion on deeply nested collections are listed known findings (exact family+phase signatures); anything else still fails the check.",
+    text="The quantifier's input families are executed literally: every <=2-byte tail and a 1M-sample (thorough: all 2^24) of 3-byte tails after a valid header, the full tag x length x fill x truncation grid (also straight into IppValue::parse), all with-language inner-length pairs, every token sequence up to length 4 (thorough 5) over the 16-token alphabet, seeded grammar-aware mutations, every tag with every 1-byte body and selected 2-byte bodies, every tag with periodic self-describing bodies (a short word such as 00 00 00 7f repeated to 12 B..64 KiB, run on a 2 MiB stack), every pair of 24 lengths (0..4097) as consecutive names / values / member names / member values, and 14 structural bomb families up to 1 MiB with each phase (parse, display, debug, encode, traverse, clone+eq, drop) in its own process. Both parsers run on every input; any panic, abort, stack overflow, read loop past EOF or unproductive poll loop is a violation carrying the input. The recorded stack overflows of post-parse recursion on deeply nested collections are listed known findings (exact family+phase signatures); anything else still fails the check.",
     note="8 MiB case-thread stack; hang decided on logical steps, wall clock only as watchdog (inconclusive). Inputs not executed are not covered."),
  "C04": dict(
     level="exploration", design="2/C04",
@@ -41,7 +41,7 @@ CHECKS = {
  "C06": dict(
     level="exploration", design="2/C06",
     technique="runtime monitor: invariant on the scripted source's read log (bytes delivered at return == offset of end-of-attributes tag + 1) plus differential result check across fragmentations",
-    text="Four entry points (blocking/async x parse/parse_parts) are run per (message, payload, schedule). The scripted source honours the full requested size in 'whole' mode, so any layer that reads ahead over-consumes and is seen in the log; other schedules go down to 1-byte reads, Interrupted before every read (blocking), Pending with immediate/deferred wake (async) and all 2^(n-1) compositions for short messages. Checked: position at return, the reader from parse_parts yields exactly the rest, payload byte-identical (quick up to 2.3 MB i.e. beyond 2^20, thorough up to 17 MB i.e. beyond 2^24, incl. payloads that are themselves IPP messages); the hand-enumerated shapes with every boundary length (incl. 32767/32768) run as a deterministic prefix, result equal to the unfragmented parse.",
+    text="Four entry points (blocking/async x parse/parse_parts) are run per (message, payload, schedule). The scripted source implements plain and native vectored reads, and honours the full requested size in 'whole' mode, so any layer that reads ahead over-consumes and is seen in the log; other schedules go down to 1-byte reads, Interrupted before every read (blocking), Pending with immediate/deferred wake (async) and all 2^(n-1) compositions for short messages. Checked: position at return, the reader from parse_parts yields exactly the rest, payload byte-identical (quick up to 2.3 MB i.e. beyond 2^20, thorough up to 17 MB i.e. beyond 2^24, incl. payloads that are themselves IPP messages); the hand-enumerated shapes with every boundary length (incl. 32767/32768) run as a deterministic prefix, result equal to the unfragmented parse.",
     note="End-tag offset computed by the reference decoder. Trusted: scripted source and log."),
  "C07": dict(
     level="fault_enumeration", design="2/C07",
@@ -56,7 +56,7 @@ CHECKS = {
  "C10": dict(
     level="exploration", design="2/C10",
     technique="runtime monitor: reference-model oracle (per-operation reference request) vs the built request, in memory and as decoded from its bytes by the reference decoder",
-    text="Random builder programs over the 10 operations (builders and operation structs), with repeated setters, arbitrary UTF-8 arguments, boundary job ids, 0/1/n requested attributes, G5 target URIs and G1 job attribute values under a pool of 44 attribute names (job-template names, document/operation attribute names a library might special-case, the header attribute names, look-alikes) plus arbitrary strings, are executed against the library and compared with a reference request (registry operation code, version 1.1, positive request-id, exactly the expected attributes with the stated syntaxes in the right group, last-wins for extras, payload bytes); plus the raw constructors over every registered operation and status.",
+    text="Random builder programs over the 10 operations (builders and operation structs), with repeated setters, arbitrary UTF-8 arguments, boundary job ids, 0/1/n requested attributes, G5 target URIs and G1 job attribute values with recurring (name, value) pairs (x, y, x) under a pool of 44 attribute names (job-template names, document/operation attribute names a library might special-case, the header attribute names, look-alikes) plus arbitrary strings, are executed against the library and compared with a reference request (registry operation code, version 1.1, positive request-id, exactly the expected attributes with the stated syntaxes in the right group, last-wins for extras, payload bytes); plus the raw constructors over every registered operation and status.",
     note="Reference canonical printer-uri comes from the harness's own URI splitter (C13's oracle)."),
  "C13": dict(
     level="exploration", design="2/C13",
@@ -72,17 +72,17 @@ CHECKS = {
  "C08": dict(
     level="exploration", design="2/C08",
     technique="runtime monitor: byte-for-byte stream oracle (collected stream vs to_bytes() ++ payload) under scripted payload sources, varying consumer buffers, manual executor and the real block_on bridge",
-    text="Each generated message is consumed through into_read and into_async_read with payload sources {none, blocking scripted reader, async scripted reader}, payloads from 0 B to MiBs delivered with random chunking, Interrupted and Pending (immediate / deferred wake, helper-thread wakes under the blocking bridge), and consumer read-buffer sizes varying per call from 1 B to 64 KiB; the collected bytes must equal to_bytes() of the same instance followed by exactly the payload, end with repeated clean EOF, and drain the source. Cross pairs (blocking payload via async, async payload via blocking) are part of every run.",
+    text="Each generated message is consumed through into_read and into_async_read with payload sources {none, blocking scripted reader, async scripted reader}, payloads from 0 B to MiBs delivered with random chunking, Interrupted and Pending (immediate / deferred wake, helper-thread wakes under the blocking bridge), and consumer read-buffer sizes varying per call from 1 B to 64 KiB; the collected bytes must equal to_bytes() of the same instance (whose 8 header octets are themselves judged against the header values, and which in every 4th case is taken before the header is changed through header_mut(), the stream having to carry the header as it is now) followed by exactly the payload, end with repeated clean EOF, and drain the source. Cross pairs (blocking payload via async, async payload via blocking) are part of every run.",
     note="A blocking consumption that never returns is reported inconclusive after 300 s (cannot be decided on logical steps)."),
  "C15": dict(
     level="exploration", design="2/C15",
     technique="runtime cost monitoring on deterministic step measures: counting global allocator (bytes, calls) and cachegrind instruction counts over doubling input families; incremental-ratio oracle",
-    text="23 doubling families plus a hash-flood family (nesting with/without member names and with multi-valued members, set width with one tag, with eight alternating tags at top level and inside a collection member, and with distinct keyword strings, set of collections, one wide collection followed by many small ones, attribute/group/member count in ascending, descending and shuffled name order, value/name length, invalid-UTF-8 names and values, four malformed floods), both parsers, sizes 2 KiB to 256 KiB (thorough 1 MiB) for the allocation measure and 4 KiB to 64 KiB (thorough 1 MiB) under cachegrind. For consecutive doublings the incremental ratio (c(4n)-c(2n))/(c(2n)-c(n)) must stay <= 2.6 (n log n passes, quadratic gives 4) and allocated bytes <= 256 KiB + 1024 n. Wall clock is never a verdict; a series stops at its first violating doubling so a quadratic tree is reported at KiB sizes within seconds.",
+    text="27 doubling families plus a hash-flood family (nesting with/without member names and with multi-valued members, set width with one tag, with eight alternating tags at top level and inside a collection member, and with distinct keyword strings, set of collections, one wide collection followed by many small ones, thousands of attributes or members sharing one or three names, a wide set led by thousands of no-value entries, attribute/group/member count in ascending, descending and shuffled name order, value/name length, invalid-UTF-8 names and values, four malformed floods), both parsers, sizes 2 KiB to 256 KiB (thorough 1 MiB) for the allocation measure and 4 KiB to 64 KiB (thorough 1 MiB) under cachegrind. For consecutive doublings the incremental ratio (c(4n)-c(2n))/(c(2n)-c(n)) must stay <= 2.6 (n log n passes, quadratic gives 4) and allocated bytes <= 256 KiB + 1024 n. Wall clock is never a verdict; a series stops at its first violating doubling so a quadratic tree is reported at KiB sizes within seconds.",
     note="Instruction counts include process start-up and input generation (linear, cancelled by the incremental ratio). Only the families listed are covered."),
  "C16": dict(
     level="exploration", design="2/C16",
     technique="runtime monitor by complete enumeration of the finite code domains against registry tables embedded in the harness (exhaustive: true)",
-    text="All 65536 16-bit values go through StatusCode::from_u16, IppHeader::status_code, is_success and Operation::from_u16, all 256 bytes through the delimiter and value tag enums, -4..65535 through the five attribute enums, and the tag emitted for every value kind is compared with the registry. A registered code must give the variant the registry names for it, any other code 'unknown' or a symbol naming no registered code (a code missing from the harness's tables is unjudged unless its symbol is the registry's name for a different code, so that correct table extensions do not alarm), success exactly for the RFC 8011 successful codes, and every variant must cast back to the integer it was decoded from. The domain is finite and enumerated completely on every run.",
+    text="All 65536 16-bit values go through StatusCode::from_u16, IppHeader::status_code, is_success and Operation::from_u16, all 256 bytes through the delimiter and value tag enums, -4..65535 through the five attribute enums, the tag emitted for every value kind is compared with the registry, every value decoded from each of the 256 tag bytes over 74 bodies must be emitted with the same tag, and every registered value of the five attribute enums must decode (except 15 finishings the pinned library does not have: unjudged). A registered code must give the variant the registry names for it, any other code 'unknown' or a symbol naming no registered code (a code missing from the harness's tables is unjudged unless its symbol is the registry's name for a different code, so that correct table extensions do not alarm), success exactly for the RFC 8011 successful codes, and every variant must cast back to the integer it was decoded from. The domain is finite and enumerated completely on every run.",
     note="Trusted: the registry tables typed in from RFC 8010/8011, PWG 5100.1 and the CUPS specification; identifier comparison is modulo case and punctuation with listed aliases."),
  "C17": dict(
     level="exploration", design="2/C17",
@@ -92,24 +92,24 @@ CHECKS = {
  "C19": dict(
     level="exploration", design="2/C19",
     technique="model-based runtime monitor: ordered reference model stepped in lock-step with IppAttributes::add, compared after every operation; iterator traversal vs model",
-    text="All add-sequences of length <= 4 (thorough 5) over a 16-operation alphabet (4 group kinds x 2 names x 2 values) are run from the empty container and from two parser-produced containers with repeated and empty groups, comparing groups(), groups_of(kind) for all kinds after every add and into_groups() at the end with a Vec-based model; random sequences of up to 200 adds with G1 values extend this. Value traversal is compared with the model (set in order, collection in member-name order, scalar once, then None thrice) for every kind, wide and empty containers and random values.",
+    text="All add-sequences of length <= 4 (thorough 5) over a 16-operation alphabet (4 group kinds x 2 names x 2 values), and of length <= 3 over two more alphabets (the specially treated names; names differing only in letter case / the empty name x scalar / empty set) are run from the empty container and from two parser-produced containers with repeated and empty groups, comparing groups(), groups_of(kind) for all kinds after every add and into_groups() at the end with a Vec-based model; random sequences of up to 200 adds with G1 values extend this. Value traversal is compared with the model (set in order, collection in member-name order, scalar once, then None thrice) for every kind, wide and empty containers and random values.",
     note="Enumeration is complete for the stated alphabet and lengths; beyond that sampling."),
 
  "C20": dict(
     level="exploration", design="2/C20",
     technique="runtime monitor: differential round-trip oracle through serde_json with the serde feature compiled in (separate harness crate), mirror equality",
-    text="The harness builds ipp with the serde feature (which the repository's suite never compiles), serialises each generated message (payload attached) to JSON and deserialises it through five serde_json carriers (to_string/from_str, to_vec/from_slice, to_writer/from_reader i.e. a non-borrowing deserialiser, to_value/from_value i.e. the tree form, to_string_pretty/from_str) and compares header, groups, names and values with the mirror of what was serialised; the payload must read as empty afterwards. IppAttributes alone and every IppValue alone go through the same round trip. All 22 kinds, raw-octet values, nested collections (up to the carrier's nesting limit) and boundary lengths are covered by the shapes prefix and seeded random messages.",
-    note="JSON (serde_json) as the carrier; messages nested deeper than 20 collection levels are skipped because serde_json refuses deeper documents."),
+    text="The harness builds ipp with the serde feature (which the repository's suite never compiles), serialises each generated message (payload attached) to JSON and deserialises it through five serde_json carriers (to_string/from_str, to_vec/from_slice, to_writer/from_reader i.e. a non-borrowing deserialiser, to_value/from_value i.e. the tree form, to_string_pretty/from_str) and compares header, groups, names and values with the mirror of what was serialised; the payload must read as empty afterwards. IppAttributes alone and every IppValue alone go through the same round trip. All 22 kinds, raw-octet values, nested collections of every depth 2..20 and beyond wherever serde_json itself accepts the JSON, and boundary lengths are covered by the shapes prefix and seeded random messages.",
+    note="JSON (serde_json) as the carrier; a message nested deeper than 20 collection levels is skipped only if serde_json itself refuses the JSON text (decided on the untyped tree, without the library's Deserialize code)."),
 
  "C11": dict(
     level="exploration", design="2/C11",
     technique="runtime monitoring against a live scripted loopback HTTP peer: offline checker over the joined client-call log and peer event log (exactly-once, content equality, error outcomes); fault injection at every cut offset; TSan/ASan layers in thorough",
-    text="Both clients talk to a raw std::net HTTP/1.1 peer that records every connection, request (line, headers, decoded body) and response. Random exchanges cover payloads from 0 B to MiBs from fragmented / interrupted / not-ready sources, custom headers, Basic credentials, ipp:// and http:// targets with path and query, and responses under content-length, chunked and close-delimited framing with write fragmentation; every 4xx/5xx status (quick: 20, thorough: all 200) carrying a valid IPP body, a connection cut at every offset inside the response's header+attributes under each framing, and a stalled server with request_timeout must give Err; 16 concurrent senders x 20 sends through one client are matched to their own responses by unique request-id and marker. The checker demands exactly one POST per send with the exact target, Host, Content-Type, headers and credentials and a body that decodes (reference decoder) to exactly the request and payload, and response equality including trailing data.",
+    text="Both clients talk to a raw std::net HTTP/1.1 peer that records every connection, request (line, headers, decoded body) and response. Random exchanges cover payloads from 0 B to MiBs from fragmented / interrupted / not-ready sources, response documents up to 3 MB (thorough 17 MB), custom headers, Basic credentials, ipp:// and http:// targets with path and query, and responses under content-length, chunked and close-delimited framing with write fragmentation; every 4xx/5xx status (quick: 20, thorough: all 200) carrying a valid IPP body, a connection cut at every offset inside the response's header+attributes under each framing, and a stalled server with request_timeout must give Err; 16 concurrent senders x 20 sends through one client are matched to their own responses by unique request-id and marker. The checker demands exactly one POST per send with the exact target, Host, Content-Type, headers and credentials and a body that decodes (reference decoder) to exactly the request and payload, and response equality including trailing data.",
     note="Quick runs the plain-HTTP feature build (no TLS set-up cost per send); thorough repeats the workload on the native-tls and rustls builds. Timeouts judged on outcome only."),
  "C12": dict(
     level="exploration", design="2/C12",
     technique="runtime monitoring of a complete configuration matrix against a loopback rustls peer with freshly generated CAs; oracle on send() outcome and on decrypted bytes seen by the peer application (exhaustive: true)",
-    text="The finite matrix {blocking, async} x {native-tls, rustls} x ignore flag {unset, false, true} x extra root {none, correct PEM, correct DER, unrelated} x server certificate {valid, wrong host, expired, self-signed, unknown CA} x a second, tiny Ed25519 root family (DER shorter than 256 bytes and ending in a 0x0a octet) and a leaf that expired seconds before the run = 504 cells, the target spelled ipps:// or https:// (quick: one spelling per cell chosen by cell hash and seed; thorough: both) is executed completely on every run (two harness builds, one per TLS backend, since the backends cannot be compiled together). A cell must accept exactly when the caller opted out or supplied the correct root for a valid leaf; in every rejected cell the peer application must not have received a single decrypted byte. Thorough repeats the matrix against TLS 1.2-only and 1.3-only peers.",
+    text="The finite matrix {blocking, async} x {native-tls, rustls} x ignore flag {unset, false, true} x extra root {none, correct PEM, correct DER, correct PEM with CRLF line endings, unrelated} x server certificate {valid, wrong host, expired, self-signed, unknown CA} x a second, tiny Ed25519 root family (DER shorter than 256 bytes and ending in a 0x0a octet) and a leaf that expired seconds before the run = 588 cells on the two uniform builds, plus the two mixed-backend builds (blocking native-tls + async rustls, blocking rustls + async native-tls: a 36-cell sub-matrix each in quick, the full matrix in thorough), the target spelled ipps:// or https:// (quick: one spelling per cell chosen by cell hash and seed; thorough: both) is executed completely on every run (four harness builds: both clients on native-tls, both on rustls, and the two mixed feature sets). A cell must accept exactly when the caller opted out or supplied the correct root for a valid leaf; in every rejected cell the peer application must not have received a single decrypted byte. Thorough repeats the matrix against TLS 1.2-only and 1.3-only peers.",
     note="Certificates are generated with the openssl CLI at check time; trust decisions are those of the OpenSSL / rustls versions in this image."),
  "C18": dict(
     level="exploration", design="2/C18",
